@@ -269,12 +269,51 @@ def counted_exit(f, L):
     return False
 
 
+FCMP_TXT = {'oeq': '==', 'ueq': '==', 'one': '!=', 'une': '!=', 'ogt': '>', 'ugt': '>', 'oge': '>=', 'uge': '>=',
+            'olt': '<', 'ult': '<', 'ole': '<=', 'ule': '<=', 'eq': '==', 'ne': '!=', 'slt': '<', 'sle': '<=', 'sgt': '>',
+            'sge': '>=', 'ugt_': '>'}
+
+
+def render(f, v, depth=0):
+    """source-like rendering of an SSA value (variable names from the debug information)"""
+    if v.k == 'ci':
+        return str(v.ival)
+    if v.k == 'cf':
+        return str(v.d.get('v'))
+    if v.k == 'arg':
+        return f.params[v.argno]['name'] or 'arg%d' % v.argno
+    i = f.inst_of(v)
+    if i is None or depth > 6:
+        return '?'
+    if i.op in ('sext', 'zext', 'trunc', 'bitcast', 'fpext', 'fptrunc', 'sitofp', 'uitofp', 'fptosi', 'freeze'):
+        return render(f, i.ops[0], depth + 1)
+    if i.op == 'load':
+        return render(f, i.ops[0], depth + 1).lstrip('&')
+    if i.op == 'alloca':
+        return '&' + (i.name or 'local')
+    if i.op in ('fcmp', 'icmp'):
+        return '%s %s %s' % (render(f, i.ops[0], depth + 1), FCMP_TXT.get(i.pred, i.pred), render(f, i.ops[1], depth + 1))
+    if i.op == 'call' and i.callee:
+        return '%s(%s)' % (i.callee.replace('llvm.', '').split('.')[0], ', '.join(render(f, o, depth + 1) for o in i.ops))
+    if i.op in ('and', 'or') and i.bits == 1:
+        return '%s %s %s' % (render(f, i.ops[0], depth + 1), '&&' if i.op == 'and' else '||', render(f, i.ops[1], depth + 1))
+    if i.op == 'select' and i.bits == 1:
+        return '(%s ? %s : %s)' % tuple(render(f, o, depth + 1) for o in i.ops)
+    if i.op == 'xor' and i.bits == 1:
+        return '!(%s)' % render(f, i.ops[0], depth + 1)
+    if i.op in ('fadd', 'fsub', 'fmul', 'fdiv', 'add', 'sub', 'mul'):
+        return '(%s %s %s)' % (render(f, i.ops[0], depth + 1), {'fadd': '+', 'fsub': '-', 'fmul': '*', 'fdiv': '/', 'add': '+',
+                                                               'sub': '-', 'mul': '*'}[i.op], render(f, i.ops[1], depth + 1))
+    n = f.var_name(v)
+    return n or i.name or ('%%%d' % i.id)
+
+
 def describe_exits(f, L):
     d = []
     for (src, dst) in L['exits']:
         t = src.term
         if t.op == 'br' and 'f' in t.d:
-            d.append(describe_value(f, t.ops[0]))
+            d.append(render(f, t.ops[0]))
     return ' | '.join(sorted(set(d)))
 
 
@@ -291,7 +330,7 @@ def fi_rules(rep, mod, T, fams):
     facts = {}
     for fam, triple in fams.items():
         pct = '%' + fam
-        facts[fam] = {'ranges': {}, 'cstr_end': {}}
+        facts[fam] = {'ranges': {}, 'cstr_end': {}, 'clean': True}
 
         def absorb(run, fam=fam):
             """cursor ranges and terminator positions proved in this value class, joined over the classes"""
@@ -302,6 +341,8 @@ def fi_rules(rep, mod, T, fams):
             for o, e in run.fi.cstr_end.items():
                 if isinstance(o, tuple):
                     fa['cstr_end'][o[1]] = max(fa['cstr_end'].get(o[1], -1), e)
+            if run.failed(('bounds', 'cstr')) or any(info['closed'] == 'widened-cap' for info in run.fi.loops.values()):
+                fa['clean'] = False        # the ranges of this class are not those of a terminating, in-bounds execution
         # ---------------- every finite double
         r = FiRun(mod, T, triple, 'finite')
         runs[fam] = r
@@ -342,7 +383,7 @@ def fi_rules(rep, mod, T, fams):
         for o in r.fi.obl.values():
             if o['kind'] == 'fpcast':
                 i = o['inst']
-                src = describe_value(f, i.ops[0])
+                src = render(f, i.ops[0])
                 rep.inst('R-FPCAST', FN, '%s: conversion to int of %s is defined' % (pct, src), o['ok'], i.where(), o['detail'])
         ok = not r.badchars and r.nstores > 0
         rep.inst('R-FCHARS', FN, '%s: only digits, point, sign, exponent marker and NUL are stored into the text buffer' % pct,
@@ -389,6 +430,42 @@ def fi_rules(rep, mod, T, fams):
     return runs, facts
 
 
+def upper_rule(rep, mod, T):
+    """R-UPPER: inside the floating routine the upper-case bit of the directive word never decides control flow, it only
+    selects between values (letters, words): the layout decided for the lower-case conversions is the layout of F E G"""
+    f = mod.fn(FN)
+    m = T['upper']
+    n = 0
+    for i in f.all_insts():
+        if i.op != 'and' or not any(o.k == 'ci' and o.ival & m for o in i.ops) or \
+                not any(o.k == 'arg' and o.argno == ROLE_OPS for o in i.ops):
+            continue
+        mask = [o.ival for o in i.ops if o.k == 'ci'][0]
+        work = [i]
+        seen = set()
+        bad = []
+        while work:
+            x = work.pop()
+            if x.id in seen:
+                continue
+            seen.add(x.id)
+            for u in f.users(x):
+                if u.op == 'dbg':
+                    continue
+                if u.op in ('icmp', 'zext', 'sext', 'trunc', 'xor') or (u.op in ('and', 'or') and u.bits == 1):
+                    work.append(u)
+                elif u.op == 'select' and u.ops[0].k == 'inst' and u.ops[0].id == x.id:
+                    continue
+                else:
+                    bad.append(u)
+        n += 1
+        ok = not bad and mask == m
+        rep.inst('R-UPPER', FN, 'test#%d of the upper-case bit only selects a value' % n, ok, i.where(),
+                 None if ok else ('the bit is tested together with other bits (mask %#x)' % mask if mask != m else
+                                  'the test decides %s at %s' % (bad[0].op, bad[0].where())))
+    return n
+
+
 # ----------------------------------------------------------------------------------------------
 # emission part
 # ----------------------------------------------------------------------------------------------
@@ -411,6 +488,8 @@ def sx_rules(rep, mod, T, fams, facts):
                 rep.inst('R-EMITCOUNT', o['fn'], '%s: emission count %s is never negative' % (pct, o['key']), o['ok'],
                          o['where'], o['detail'])
         for (fn_, key), r in sorted(sx.reads.items()):
+            if not facts[fam]['clean']:
+                break       # premise missing: R-FBUF / R-FTERM / R-NANINF / R-LDBL report why the cursor ranges are not available
             rep.inst('R-EMITREAD', fn_, '%s: emission loop %s reads inside the local buffer' % (pct, key), r['ok'],
                      r['where'], r['detail'])
         res, npaths = c13_sx.float_layout(sx, rets, f, T, wp, fam)
@@ -437,4 +516,5 @@ def run(rep, repo, tier):
     if not fams:
         raise AnalysisBroken('no floating conversion reaches %s with constant mode arguments' % FN)
     runs, facts = fi_rules(rep, mod, T, fams)
+    upper_rule(rep, mod, T)
     sx_rules(rep, mod, T, fams, facts)
